@@ -672,6 +672,33 @@ func run() int {
 		}
 		exit = 1
 	}
+	// a function under contract that can no longer be brought into the verifier's subset (path explosion, unroll
+	// bound exceeded, unsupported construct) has lost all its obligations: on the unchanged tree there is none, so
+	// this is reported like an undischarged obligation, not silently skipped
+	for _, r := range results {
+		if r.OutOfSubset == "" {
+			continue
+		}
+		name := r.Name + "#generation:out-of-subset"
+		if _, nc := notClaimed[name]; nc {
+			continue
+		}
+		if kf := matchKnown(known, name); kf != nil {
+			kf.hit = true
+			fmt.Printf("KNOWN-FINDING: property=%s %s (undecided)\n", *prop, name)
+			continue
+		}
+		path := filepath.Join(replayDir, safeName(name)+".json")
+		rep := map[string]interface{}{
+			"property": *prop, "obligation": name, "kind": "generation", "function": r.Name, "status": "undecided",
+			"solver_output": "the verification conditions of this function could not be generated: " + r.OutOfSubset,
+			"replay": map[string]interface{}{"reproduced": false, "note": "no obligations were generated, so there is no counterexample to replay"},
+		}
+		b, _ := json.MarshalIndent(rep, "", " ")
+		os.WriteFile(path, b, 0o644)
+		fmt.Printf("VIOLATION property=%s replay=%s obligation=%q no-failing-input-found\n", *prop, path, name)
+		exit = 1
+	}
 	if len(w.PF.Disagree) > 0 {
 		fmt.Fprintf(os.Stderr, "ENGINE FAULT: solver disagreement: %v\n", w.PF.Disagree)
 		exit = 2
